@@ -91,6 +91,7 @@ WriteAll(cx, st, texts) ==
   IF texts = <<>> \/ st.sink.failed THEN st
   ELSE WriteAll(cx, TwWrite(cx, st, Head(texts)), Tail(texts))
 
+XArgsName == <<108, 113, 120, 95, 97, 114, 103, 115>>      \* lqx_args
 \* --------------------------------------------------------------- the tree
 RECURSIVE NLNode(_)
 RECURSIVE NLNodes(_)
@@ -104,6 +105,7 @@ NLNode(n) ==
     [] n.t = "case" -> Pad(n) + NLNodes(Fld(n, "pre", <<>>)) + NLBranches(n.whens)
     [] n.t = "for" -> Pad(n) + NLNodes(n.body) + NLNodes(Fld(n, "else", <<>>))
     [] n.t = "capture" -> Pad(n) + NLNodes(n.body)
+    [] n.t = "xblock" -> Pad(n) + NLNodes(n.body)
     \* a tag or object may itself span lines (padnl newlines inside its delimiters): it begins on
     \* the line it starts, what follows it is that many lines further down
     [] OTHER -> Fld(n, "padnl", 0)
@@ -321,6 +323,45 @@ ExecNode(cx, st0, n, line) ==
                     own == Same(Lookup(st0.env, B_forloop), ForloopV(lf.i, Len(lf.items)))
                 IN  IF ~own THEN Undecided(st0)
                     ELSE IoCheck(cx, TwWrite(cx, [st0 EXCEPT !.k[j].cyc = cyc2], n.vals[(cnt % Len(n.vals)) + 1]), line)
+    \* ---- constructs registered by the embedding program through the public API (RegisterTag / RegisterBlock with
+    \* render.Context): what the harness registers under these names is spelled out in harness/ext.go
+    \* lqx_args: TagName and TagArgs, verbatim
+    [] n.t = "xargs" -> IoCheck(cx, TwWrite(cx, st0, <<60>> \o XArgsName \o <<124>> \o n.s \o <<62>>), line)
+    \* lqx_set NAME EXPR: Context.EvaluateString and Context.Set - an assign by other means
+    [] n.t = "xset" ->
+         LET v == Eval(n.e, st0.env) IN
+           IF v.r = "err" THEN Fail(cx, st0, line, "eval")
+           ELSE IF v.r = "unspec" THEN Undecided(st0)
+           ELSE [st0 EXCEPT !.env = SetVar(st0.env, n.name, v.v)]
+    \* lqx_show NAME: Context.Get, printed as Go prints it
+    [] n.t = "xshow" ->
+         LET v == Lookup(st0.env, n.name) IN
+           IF v.k = "str" THEN IoCheck(cx, TwWrite(cx, st0, v.v), line)
+           ELSE IF v.k = "nil" THEN IoCheck(cx, TwWrite(cx, st0, <<60, 110, 105, 108, 62>>), line)
+           ELSE IF v.k \in {"int", "bool"} THEN IoCheck(cx, TwWrite(cx, st0, ToText(v).s), line)
+           ELSE Undecided(st0)
+    \* lqx_expand ARGS: Context.ExpandTagArg - the arguments, with the objects in them rendered in the current
+    \* bindings (hyphens included), arrive as one piece of output; an error in them is located at the tag
+    [] n.t = "xexpand" ->
+         [st0 EXCEPT !.ws = Append(@, Writer0), !.k = Append(@, SeqF(n.body, "xexpand", line, line, <<>>))]
+    \* lqx_fail: Context.Errorf
+    [] n.t = "xfail" -> Fail(cx, st0, line, "ext")
+    \* lqx_file NAME: Context.RenderFile(dir of Context.SourceFile / NAME, {p: 7}) - the file is rendered with the
+    \* current bindings plus p; what it assigns stays with it
+    [] n.t = "xfile" ->
+         LET p == JoinPath(DirOf(cx.path), n.rel) IN
+           IF FileIn(cx.fs, p) \/ FileIn(cx.cache, p)
+           THEN LET ent == IF FileIn(cx.fs, p) THEN FileEntry(cx.fs, p) ELSE FileEntry(cx.cache, p) IN
+                IF Len(ent) = 3 THEN Fail(cx, st0, 0 - 1, "include-syntax")
+                ELSE [st0 EXCEPT !.ws = Append(@, Writer0), !.env = SetVar(@, <<112>>, IntV(7)),
+                                 !.k = Append(@, SeqF(ent[2], "include", line, line, st0.env))]
+           ELSE Fail(cx, st0, line, "include-missing")
+    \* lqx_drop / lqx_wrap / lqx_twice ... end: Context.InnerString zero times, once, twice; the block writes
+    \* "(" first "|" second ")" in one piece
+    [] n.t = "xblock" ->
+         IF n.times = 0 THEN st0
+         ELSE [st0 EXCEPT !.ws = Append(@, Writer0),
+                          !.k = Append(@, SeqF(n.body, "xblock", line + Pad(n), line, [left |-> n.times - 1, acc |-> <<40>>, body |-> n.body, ln |-> line + Pad(n)]))]
     [] n.t = "include" ->
          LET v == Eval(n.e, st0.env) IN
            IF v.r = "err" THEN Fail(cx, st0, line, "eval")
@@ -353,6 +394,18 @@ EndSeq(cx, st, f) ==
               LET content == Top(fl.ws).acc
                   s1 == [fl EXCEPT !.k = Pop(@), !.ws = Pop(@), !.env = f.aux]
               IN  IoCheck(cx, TwWrite(cx, s1, content), f.bl)
+         [] f.end = "xexpand" ->
+              LET content == Top(fl.ws).acc
+                  s1 == [fl EXCEPT !.k = Pop(@), !.ws = Pop(@)]
+              IN  IoCheck(cx, TwWrite(cx, s1, content), f.bl)
+         [] f.end = "xblock" ->
+              LET content == Top(fl.ws).acc
+                  s1 == [fl EXCEPT !.k = Pop(@), !.ws = Pop(@)]
+              IN  IF f.aux.left > 0
+                  THEN [s1 EXCEPT !.ws = Append(@, Writer0),
+                                  !.k = Append(@, SeqF(f.aux.body, "xblock", f.aux.ln, f.bl,
+                                                       [f.aux EXCEPT !.left = @ - 1, !.acc = @ \o content \o <<124>>]))]
+                  ELSE IoCheck(cx, TwWrite(cx, s1, f.aux.acc \o content \o <<41>>), f.bl)
 
 \* tablerow decoration around iteration i (1-based) of n
 RowBefore(cx, st, lf) ==
@@ -406,7 +459,9 @@ StepSignal(cx, st) ==
     ELSE CASE f.end = "root" -> Fail(cx, [st EXCEPT !.k = Pop(@)], 0 - 1, "loop-signal")
            [] f.end \in {"block", "iter"} -> [st EXCEPT !.k = Pop(@)]
            [] f.end = "capture" -> [st EXCEPT !.k = Pop(@), !.ws = Pop(@)]
-           [] f.end = "include" -> Undecided(st)
+           \* (a block of the embedding program that passes the signal on as its error: what it had rendered is dropped)
+           [] f.end = "xblock" -> [st EXCEPT !.k = Pop(@), !.ws = Pop(@)]
+           [] f.end \in {"include", "xexpand"} -> Undecided(st)
 
 Step(cx, st) ==
   LET s0 == [st EXCEPT !.steps = @ + 1] IN
